@@ -116,6 +116,8 @@ func intInfo(t types.Type) (bits int, signed bool, ok bool) {
 	return 0, false, false
 }
 
+var maxInt64 = new(big.Int).Sub(new(big.Int).Lsh(big.NewInt(1), 63), big.NewInt(1))
+
 func pow2(n int) *big.Int { return new(big.Int).Lsh(big.NewInt(1), uint(n)) }
 
 func intRange(bits int, signed bool) (lo, hi *big.Int) {
@@ -284,7 +286,7 @@ func typeInv(v *Val) []*Term {
 		}
 	case VSlice:
 		out = append(out, Le(Num(0), v.Off), Le(Num(0), v.Len), Le(v.Len, v.Cap), Le(Num(0), v.Ref),
-			Implies(Eq(v.Ref, Num(0)), Eq(v.Cap, Num(0))))
+			Implies(Eq(v.Ref, Num(0)), Eq(v.Cap, Num(0))), Le(v.Cap, NumBig(maxInt64)), Le(v.Off, NumBig(maxInt64)))
 	case VIface:
 		out = append(out, Implies(Eq(v.Tag, Num(0)), Eq(v.Box, Num(0))))
 	case VStruct, VTuple:
@@ -421,6 +423,20 @@ func strFacts(used map[string]bool) []*Term {
 	}
 	if len(ids) > 1 {
 		out = append(out, intern(&Term{Op: "distinct", Args: ids, S: SBool}))
+	}
+	// extensionality towards short literals: a string with the literal's length and characters is
+	// the literal (strings are values; the id is the abstract string)
+	for _, s := range strLitOrder {
+		t := strLits[s]
+		if !used[t.Name] || len(s) > 8 {
+			continue
+		}
+		x := BVar("s", SInt)
+		conds := []*Term{Eq(SLen(x), Num(int64(len(s))))}
+		for i := 0; i < len(s); i++ {
+			conds = append(conds, Eq(SAt(x, Num(int64(i))), Num(int64(s[i]))))
+		}
+		out = append(out, Forall([]*Term{x}, [][]*Term{{SLen(x)}}, Implies(And(conds...), Eq(x, t))))
 	}
 	return out
 }
